@@ -122,6 +122,9 @@ def place(rng, centre, kind, rmin=0.2, rmax=2.5):
         d[ax] = rng.choice([-1.0, 1.0])
         d[(ax + 1) % 3], d[(ax + 2) % 3] = eps * math.cos(ph), eps * math.sin(ph)
         return [centre[i] + r * d[i] for i in range(3)]
+    if kind == "zplane":   # exactly in the plane z = z(ECP) (a planar molecule in the xy plane): the z component of the offset is 0.0
+        ph = rng.uniform(0, 2 * math.pi)
+        return [centre[0] + r * math.cos(ph), centre[1] + r * math.sin(ph), centre[2]]
     if kind == "axis":
         ax = rng.randrange(3); s = rng.choice([-1, 1])
         d = [0.0, 0.0, 0.0]; d[ax] = s
